@@ -59,6 +59,9 @@ func (c *regexpSimplifyChecker) VisitExpr(x ast.Expr) {
 
 	switch qualifiedName(call.Fun) {
 	case "regexp.Compile", "regexp.MustCompile":
+		if len(call.Args) == 0 {
+			return
+		}
 		cv := c.ctx.TypesInfo.Types[call.Args[0]].Value
 		if cv == nil || cv.Kind() != constant.String {
 			return
